@@ -3,7 +3,7 @@ import hirflow
 from facts import find_hir, strip
 
 LEVEL = "other"
-CRATES_QUICK = ["dmntk_workspace"]
+CRATES_QUICK = ["dmntk_workspace", "dmntk_server"]
 CRATES_THOROUGH = None
 W = "dmntk_workspace::workspace::Workspace"
 FILE = "workspace/src/workspace.rs"
@@ -155,6 +155,20 @@ def run(F, rep, tier):
     rep.floor(r1, "index-mutating methods", nmut, 4)
     all_or_nothing_rule(F, rep, index_fields, fields)
     per_model_loop_rule(F, rep, methods)
+    stored_evaluator_rule(F, rep, methods, ev_fields)
+    r8 = rep.rule("R17.8", "Workspace operations are called with their arguments in parameter order (no `remove(name, namespace)` for `remove(namespace, name)`)")
+    targets = set(methods)
+    ncall = 0
+    for name, h in sorted(F.hir.items()):
+        if not h["_crate"].startswith(("dmntk_workspace", "dmntk_server")):
+            continue
+        calls = [c for c, _ in find_hir(h["body"], lambda x: x.get("k") in ("MethodCall", "Call") and (x.get("callee") or "") in targets)]
+        ncall += len(calls)
+        for callee, line, an, pn in swapped_arguments(F, h, targets):
+            rep.violation(r8, "swapped:%s->%s" % (name.split("::")[-1], callee.split("::")[-1]), "%s calls %s with arguments named %s for parameters %s: two arguments are exchanged"
+                          % (name.split("::")[-1], callee.split("::")[-1], an, pn), "%s:%s" % (h["file"], line))
+    if not any(v["rule"] == r8 for v in rep.violations):
+        rep.ok(r8, "argument-order", "%d calls of Workspace operations, no exchanged arguments" % ncall)
 
     # deploy
     dep = methods.get(W + "::deploy")
@@ -195,6 +209,66 @@ def run(F, rep, tier):
             rep.missing_anchor(r4, "ModelEvaluator::new call in deploy")
         else:
             rep.ok(r4, "deploy:err-arm", "no Err arm that leaves the loop")
+
+
+def stored_evaluator_rule(F, rep, methods, ev_fields):
+    """R17.7: 'evaluation is possible exactly for the models that built successfully': what is stored in the evaluator map is the Ok payload of
+    ModelEvaluator::new - not a default / fallback evaluator standing in for a model that failed to build."""
+    rid = rep.rule("R17.7", "the evaluator map only receives evaluators that ModelEvaluator::new returned as Ok (no default / placeholder for a model that failed to build)")
+    NEW = "dmntk_model_evaluator::model_evaluator::ModelEvaluator::new"
+    n = 0
+    for name, h in sorted(methods.items()):
+        fl = hirflow.Flow(h)
+        for c, args, cond, line, node in fl.calls:
+            if node.get("k") != "MethodCall" or node.get("method") not in ("insert", "entry", "extend", "push") or not args or field_of(args[0]) not in ev_fields:
+                continue
+            n += 1
+            key = "stored:%s" % name.split("::")[-1]
+            v = args[-1]
+            while v and v[0] == "via":
+                v = v[2]
+            is_new = bool(v) and v[0] == "call" and v[1] == NEW
+            ok_cond = any(cd[0] and cd[0][0] == "call" and cd[0][1] == NEW and cd[2] is True and any(isinstance(x, str) and x.endswith("Result::Ok") for x in cd[1]) for cd in cond)
+            if is_new and ok_cond:
+                rep.ok(rid, key, "the Ok payload of ModelEvaluator::new")
+            else:
+                rep.violation(rid, key, "%s stores %s in the evaluator map%s: a model that failed to build must not become evaluable" % (name.split("::")[-1], str(v)[:90],
+                              "" if is_new else " (not the value ModelEvaluator::new returned as Ok)"), "%s:%s" % (FILE, line))
+    rep.floor(rid, "insertions into the evaluator map", n, 1)
+
+
+def swapped_arguments(F, h, targets):
+    """calls in h to functions in `targets` whose arguments are named like *other* parameters of the callee (`remove(name, namespace)` for
+    `fn remove(namespace, name)`): returns [(callee, line, arg names, parameter names)]"""
+    out = []
+    for c, _ in find_hir(h["body"], lambda x: x.get("k") in ("MethodCall", "Call") and (x.get("callee") or "") in targets):
+        callee = F.hir.get(c["callee"])
+        if callee is None:
+            continue
+        pn = [p.get("name") for p in callee.get("params", [])]
+        actual = ([c["recv"]] if c.get("k") == "MethodCall" else []) + list(c.get("args", []))
+
+        def ident(e):
+            e = strip(e)
+            while e.get("k") in ("MethodCall",) and e.get("method") in ("as_str", "as_ref", "clone", "to_string", "to_owned", "deref", "borrow", "into", "as_deref"):
+                e = strip(e["recv"])
+            while e.get("k") in ("AddrOf", "Unary"):
+                e = strip(e.get("e") or e.get("a"))
+            if e.get("k") == "Field":
+                return e.get("name")
+            if e.get("k") == "Path" and e.get("res") == "local":
+                return e.get("name")
+            return None
+        an = [ident(a) for a in actual]
+        for i, a in enumerate(an):
+            if a is None or i >= len(pn) or a == pn[i]:
+                continue
+            if a in pn and pn.index(a) != i:
+                j = pn.index(a)
+                if j < len(an) and an[j] is not None and an[j] != pn[j]:
+                    out.append((c["callee"], c.get("l"), an, pn))
+                    break
+    return out
 
 
 def per_model_loop_rule(F, rep, methods):
